@@ -54,9 +54,18 @@ func (fx *FnExec) doCall(st *State, instr ssa.Instruction, c *ssa.CallCommon) []
 		}
 	} else {
 		callee = c.StaticCallee()
+		mc, _ := c.Value.(*ssa.MakeClosure)
+		if callee == nil {
+			// f := func(){...}; f(): a local assigned one function literal is that literal
+			if m := fx.closureOf(c.Value); m != nil {
+				if fn, ok := m.Fn.(*ssa.Function); ok && fx.g.contracts[funcKey(fn)] != nil {
+					mc, callee = m, fn
+				}
+			}
+		}
 		if callee != nil {
 			key = funcKey(callee)
-			if mc, ok := c.Value.(*ssa.MakeClosure); ok {
+			if mc != nil {
 				// bindings become leading "free variable" arguments, named after the captured vars
 				for i, b := range mc.Bindings {
 					args = append(args, fx.val(b))
@@ -241,6 +250,10 @@ func (fx *FnExec) doCall(st *State, instr ssa.Instruction, c *ssa.CallCommon) []
 		if mc := fx.closureOf(c.Value); mc != nil {
 			ms = fx.g.eff.of(mc.Fn.(*ssa.Function))
 			key = funcKey(mc.Fn.(*ssa.Function))
+		} else if g := returnedClosureOf(c.Value); g != nil {
+			// unlock := lockWithTrace(...); unlock(): the value called is the one function literal F returns
+			ms = fx.g.eff.of(g)
+			key = funcKey(g)
 		}
 	default:
 		ms = fx.g.eff.external(key)
@@ -740,4 +753,58 @@ func (fx *FnExec) siteOrdinal(instr ssa.Instruction, calleeName string) int {
 		}
 	}
 	return 0
+}
+
+// returnedClosureOf resolves a called function value to a function literal when the value is the result of a
+// static call to a function of this program all of whose return statements return a closure over the SAME literal
+// (directly, or through a local assigned exactly once from such a call). Only the literal's code is used (its
+// inferred write set); nothing is assumed about which variables it captured.
+func returnedClosureOf(v ssa.Value) *ssa.Function {
+	if ld, ok := v.(*ssa.UnOp); ok && ld.Op.String() == "*" {
+		a, ok := ld.X.(*ssa.Alloc)
+		if !ok || a.Heap || a.Referrers() == nil {
+			return nil
+		}
+		var src ssa.Value
+		for _, r := range *a.Referrers() {
+			switch s := r.(type) {
+			case *ssa.Store:
+				if s.Addr != a || src != nil {
+					return nil
+				}
+				src = s.Val
+			case *ssa.UnOp, *ssa.DebugRef:
+			default:
+				return nil
+			}
+		}
+		v = src
+	}
+	call, ok := v.(*ssa.Call)
+	if !ok {
+		return nil
+	}
+	f := call.Call.StaticCallee()
+	if f == nil || len(f.Blocks) == 0 || f.Signature.Results().Len() != 1 {
+		return nil
+	}
+	var lit *ssa.Function
+	for _, b := range f.Blocks {
+		for _, in := range b.Instrs {
+			ret, ok := in.(*ssa.Return)
+			if !ok {
+				continue
+			}
+			mc := closureOfValue(ret.Results[0])
+			if mc == nil {
+				return nil
+			}
+			g, ok := mc.Fn.(*ssa.Function)
+			if !ok || (lit != nil && lit != g) {
+				return nil
+			}
+			lit = g
+		}
+	}
+	return lit
 }
